@@ -66,27 +66,28 @@ type deferred struct {
 }
 
 type State struct {
-	fx       *FuncExec
-	decls    []string
-	declSet  map[string]bool
-	pc       []string
-	pcSet    map[string]bool
-	env      map[ssa.Value]Value
-	heap     *HeapView
-	old      *HeapView // heap at function entry
-	brk      string
-	defers   []deferred
-	trace    []int // block indices of the top frame
-	depth    int   // inline depth
-	cutFrom  *ssa.BasicBlock
-	remat    []string // rematerialised alloc refs (for distinctness)
-	ghostV   map[string]Value
-	notes    []string
-	quiet    int // >0: panic obligations suppressed (rematerialisation)
-	quietInv int // >0: no type-invariant assumptions (under a binder)
-	callBrk  string
-	frame    []frameLoc
-	hasFrame bool
+	constRoots map[string]bool // roots of immutable cells (see constCell)
+	fx         *FuncExec
+	decls      []string
+	declSet    map[string]bool
+	pc         []string
+	pcSet      map[string]bool
+	env        map[ssa.Value]Value
+	heap       *HeapView
+	old        *HeapView // heap at function entry
+	brk        string
+	defers     []deferred
+	trace      []int // block indices of the top frame
+	depth      int   // inline depth
+	cutFrom    *ssa.BasicBlock
+	remat      []string // rematerialised alloc refs (for distinctness)
+	ghostV     map[string]Value
+	notes      []string
+	quiet      int // >0: panic obligations suppressed (rematerialisation)
+	quietInv   int // >0: no type-invariant assumptions (under a binder)
+	callBrk    string
+	frame      []frameLoc
+	hasFrame   bool
 }
 
 func (st *State) clone() *State {
@@ -106,6 +107,12 @@ func (st *State) clone() *State {
 		n.env[k] = v
 	}
 	n.heap = st.heap.clone()
+	if st.constRoots != nil {
+		n.constRoots = make(map[string]bool, len(st.constRoots))
+		for k := range st.constRoots {
+			n.constRoots[k] = true
+		}
+	}
 	n.defers = append([]deferred(nil), st.defers...)
 	n.trace = append([]int(nil), st.trace...)
 	n.remat = append([]string(nil), st.remat...)
@@ -162,13 +169,14 @@ func (st *State) heapTermIn(h *HeapView, key string, arity int, sort string) str
 		return t
 	}
 	gen := h.base
-	if gen != "0" && !st.fx.modified(key) {
-		gen = "0"
-	}
+	best := -1
 	for p, g := range h.pre {
-		if key == p || strings.HasPrefix(key, p+".") || strings.HasPrefix(key, p+"#") || (p == "ghost" && strings.HasPrefix(key, "ghost:")) {
-			gen = g
+		if len(p) > best && (key == p || strings.HasPrefix(key, p+".") || strings.HasPrefix(key, p+"#") || (p == "ghost" && strings.HasPrefix(key, "ghost:"))) {
+			gen, best = g, len(p)
 		}
+	}
+	if best < 0 && gen != "0" && !st.fx.modified(key) {
+		gen = "0"
 	}
 	name := sym("H" + gen + ":" + mangleKey(key))
 	st.declare(name, hs.smt())
@@ -188,6 +196,48 @@ func (st *State) heapSet(key string, term string) {
 
 // havocAll forgets everything about the heap (unknown callee).
 func (st *State) havocAll(tag string) {
+	// cells of local variables whose address never leaves this function are out of any
+	// callee's reach: their contents survive
+	type saved struct {
+		a Addr
+		v Value
+	}
+	var keep []saved
+	for _, al := range st.fx.localCells() {
+		ref, ok := st.env[al]
+		if !ok || ref.K != VRef {
+			continue
+		}
+		pt := al.Type().(*types.Pointer).Elem()
+		func() {
+			defer func() {
+				if r := recover(); r != nil {
+					if _, ok := r.(unsupportedErr); !ok {
+						panic(r)
+					}
+				}
+			}()
+			a := Addr{Root: ref.T, Key: rootKey(pt), Ty: pt}
+			st.quietInv++
+			v := st.loadAt(a)
+			st.quietInv--
+			keep = append(keep, saved{a, v})
+		}()
+	}
+	defer func() {
+		for _, k := range keep {
+			func() {
+				defer func() {
+					if r := recover(); r != nil {
+						if _, ok := r.(unsupportedErr); !ok {
+							panic(r)
+						}
+					}
+				}()
+				st.storeAt(k.a, k.v)
+			}()
+		}
+	}()
 	st.fx.counter++
 	st.heap = &HeapView{m: map[string]string{}, base: fmt.Sprintf("hv%d", st.fx.counter)}
 	st.fx.havocGens[st.heap.base] = true
@@ -259,6 +309,10 @@ func (st *State) loadAtIn(h *HeapView, a Addr) Value {
 		v.Off = selectChain(st.heapTermIn(h, a.Key+"#off", len(idx), "Int"), idx)
 		v.Len = selectChain(st.heapTermIn(h, a.Key+"#len", len(idx), "Int"), idx)
 		v.Cap = selectChain(st.heapTermIn(h, a.Key+"#cap", len(idx), "Int"), idx)
+		if st.constRoots[a.Root] && len(a.Idx) == 0 && a.Key == rootKey(t) {
+			v.Arr, v.Off = "(ccell_arr "+a.Root+")", "(ccell_off "+a.Root+")"
+			v.Len, v.Cap = "(ccell_len "+a.Root+")", "(ccell_cap "+a.Root+")"
+		}
 		st.assumeSliceInv(v)
 		if st.quietInv == 0 && st.fx.eng.nonNilGlobals[a.Key] {
 			st.assume("(not (= " + v.Arr + " 0))")
@@ -278,6 +332,9 @@ func (st *State) loadAtIn(h *HeapView, a Addr) Value {
 	}
 	idx := a.indices()
 	term := selectChain(st.heapTermIn(h, a.Key, len(idx), scalarSort(k)), idx)
+	if st.constRoots[a.Root] && len(a.Idx) == 0 && a.Key == rootKey(t) {
+		term = fmt.Sprintf("(ccell_%s %s)", scalarSort(k), a.Root)
+	}
 	v := Value{K: k, T: term, Ty: t}
 	st.assumeTypeInv(v)
 	st.assumeNonNil(v)
@@ -313,6 +370,9 @@ func (st *State) storeAt(a Addr, v Value) {
 		for _, c := range [][2]string{{"#arr", v.Arr}, {"#off", v.Off}, {"#len", v.Len}, {"#cap", v.Cap}} {
 			h := st.heapTermIn(st.heap, a.Key+c[0], len(idx), "Int")
 			st.heapSet(a.Key+c[0], storeChain(h, idx, c[1]))
+			if st.constRoots[a.Root] && len(a.Idx) == 0 && a.Key == rootKey(t) {
+				st.assume(fmt.Sprintf("(= (ccell_%s %s) %s)", c[0][1:], a.Root, c[1]))
+			}
 		}
 		return
 	case VArray:
@@ -335,6 +395,16 @@ func (st *State) storeAt(a Addr, v Value) {
 	idx := a.indices()
 	h := st.heapTermIn(st.heap, a.Key, len(idx), scalarSort(k))
 	st.heapSet(a.Key, storeChain(h, idx, v.T))
+	if st.constRoots[a.Root] && len(a.Idx) == 0 && a.Key == rootKey(t) {
+		st.assume(fmt.Sprintf("(= (ccell_%s %s) %s)", scalarSort(k), a.Root, v.T))
+	}
+}
+
+func (st *State) markConst(root string) {
+	if st.constRoots == nil {
+		st.constRoots = map[string]bool{}
+	}
+	st.constRoots[root] = true
 }
 
 // addrToRef converts an address into a storable reference when it denotes a whole object.
@@ -509,6 +579,17 @@ func (st *State) alloc(t types.Type) Value {
 	}
 	st.storeAt(Addr{Root: r, Key: rootKey(t), Ty: t}, st.zero(t))
 	st.initGhosts(r, t)
+	if fullTypeName(t) == "sync.WaitGroup" {
+		for _, g := range [][3]string{{"wg_added", "Int", "0"}, {"wg_done", "Int", "0"}, {"wg_waited", "Bool", "false"}} {
+			h := st.heapTermIn(st.heap, "ghost:"+g[0], 1, g[1])
+			st.heapSet("ghost:"+g[0], fmt.Sprintf("(store %s %s %s)", h, r, g[2]))
+		}
+	}
+	if hasMutex(t, 0) {
+		// a new mutex is unlocked
+		h := st.heapTermIn(st.heap, "ghost:mu_held", 1, "Bool")
+		st.heapSet("ghost:mu_held", fmt.Sprintf("(store %s %s false)", h, r))
+	}
 	return Value{K: VRef, T: r, Ty: types.NewPointer(t)}
 }
 
@@ -569,4 +650,18 @@ func (st *State) initGhosts(r string, t types.Type) {
 		h := st.heapTermIn(st.heap, "ghost:"+g.Name, 1, sort)
 		st.heapSet("ghost:"+g.Name, fmt.Sprintf("(store %s %s %s)", h, r, z))
 	}
+}
+
+func hasMutex(t types.Type, d int) bool {
+	if n := fullTypeName(t); n == "sync.Mutex" || n == "sync.RWMutex" {
+		return true
+	}
+	if s, ok := t.Underlying().(*types.Struct); ok && d < 3 {
+		for i := 0; i < s.NumFields(); i++ {
+			if hasMutex(s.Field(i).Type(), d+1) {
+				return true
+			}
+		}
+	}
+	return false
 }
